@@ -19,9 +19,13 @@ Definition p_trace : bytes := [116; 114; 97; 99; 101; 95].  (* trace_ *)
 Definition is_gen (prefix v : bytes) : bool :=
   prefixb prefix v && Nat.eqb (length v) (length prefix + 24) && forallb is_hex_lower (skipn (length prefix) v).
 
+(* the request-id plugin: hex of 16 random bytes *)
+Definition is_plug_gen (v : bytes) : bool := Nat.eqb (length v) 32 && forallb is_hex_lower v.
+
 Definition val_match (pv ov : bytes) : bool :=
   if bytes_eqb pv GEN_REQ then is_gen p_req ov
   else if bytes_eqb pv GEN_TRACE then is_gen p_trace ov
+  else if bytes_eqb pv GEN_PLUG then is_plug_gen ov
   else bytes_eqb pv ov.
 
 Fixpoint hdrs_match (p o : hdrs) : bool :=
@@ -82,8 +86,10 @@ Definition reqset_keys (c : wcfg) : list bytes :=
   flat_map (fun p => match p with WHeaders _ rs => map fst rs | _ => [] end) (c_chain c).
 Definition set_keys (c : wcfg) : list bytes :=
   flat_map (fun p => match p with WHeaders s _ => map fst s | _ => [] end) (c_chain c).
+Definition has_reqid (chain : list wplug) : bool := existsb (fun p => match p with WReqId => true | _ => false end) chain.
 Definition id_keys (c : wcfg) : list bytes :=
-  (if c_rid c then [c_rid_hdr c] else []) ++ (if c_tr c then [c_tr_hdr c] else []).
+  (if c_rid c then [c_rid_hdr c] else []) ++ (if c_tr c then [c_tr_hdr c] else [])
+  ++ (if has_reqid (c_chain c) then [s_xrid] else []).
 
 Definition hdel_all (ks : list bytes) (h : hdrs) : hdrs := fold_left (fun acc k => hdel k acc) ks h.
 
@@ -155,14 +161,17 @@ Definition c16_one (on : bool) (name gen_prefix : bytes) (k : wi_case) : bool * 
     (true, true, true, true, untouched).
 
 (* a name used by a request_set / set of a configured headers plugin, or shared by both features, is outside the claim *)
-Definition c16_applies (k : wi_case) (name : bytes) : bool :=
+(* ... and so is X-Request-Id for a DISABLED feature when the request-id plugin is configured (the plugin then owns the header);
+   with the feature enabled the claim applies in full with the plugin in the chain *)
+Definition c16_applies (k : wi_case) (name : bytes) (on : bool) : bool :=
   negb (existsb (bytes_eqb name) (reqset_keys (wi_cfg k) ++ set_keys (wi_cfg k)))
-  && negb (bytes_eqb (c_rid_hdr (wi_cfg k)) (c_tr_hdr (wi_cfg k))).
+  && negb (bytes_eqb (c_rid_hdr (wi_cfg k)) (c_tr_hdr (wi_cfg k)))
+  && negb (has_reqid (c_chain (wi_cfg k)) && bytes_eqb name s_xrid && negb on).
 
 Definition c16_all (k : wi_case) : bool * bool * bool * bool * bool :=
   let c := wi_cfg k in
-  let '(p1, e1, c1, f1, d1) := if c16_applies k (c_rid_hdr c) then c16_one (c_rid c) (c_rid_hdr c) p_req k else (true, true, true, true, true) in
-  let '(p2, e2, c2, f2, d2) := if c16_applies k (c_tr_hdr c) then c16_one (c_tr c) (c_tr_hdr c) p_trace k else (true, true, true, true, true) in
+  let '(p1, e1, c1, f1, d1) := if c16_applies k (c_rid_hdr c) (c_rid c) then c16_one (c_rid c) (c_rid_hdr c) p_req k else (true, true, true, true, true) in
+  let '(p2, e2, c2, f2, d2) := if c16_applies k (c_tr_hdr c) (c_tr c) then c16_one (c_tr c) (c_tr_hdr c) p_trace k else (true, true, true, true, true) in
   (p1 && p2, e1 && e2, c1 && c2, f1 && f2, d1 && d2).
 
 (* C17 on the real stack: the first plugin (in configured order) that rejects this request *)
